@@ -194,6 +194,21 @@ impl<'a> Iterator for Tokenizer<'a> {
 
     #[inline]
     fn next(&mut self) -> Option<Self::Item> {
+        // White space and comments in front of the token are skipped here in a loop: the arms below skip them
+        // by calling `next` again, one level of recursion per character or comment line, which overflows the
+        // stack of a build without tail-call optimisation on a long run of blank or comment lines.
+        loop {
+            while self.peek().map_or(false, is_whitespace) {
+                self.bump();
+            }
+            let mut ahead = self.chars.clone();
+            if ahead.next() == Some('/') && ahead.next() == Some('/') {
+                self.skip_while(|c, _| c != '\n');
+            } else {
+                break;
+            }
+        }
+
         let start = self.offset();
         let token = match self.bump()? {
             // Identifiers
